@@ -1,6 +1,8 @@
 package leanhelix
 
 import (
+	"context"
+
 	"github.com/orbs-network/lean-helix-go/services/interfaces"
 	"github.com/orbs-network/lean-helix-go/spec/types/go/primitives"
 	env "github.com/orbs-network/lean-helix-go/zzverifenv"
@@ -8,6 +10,7 @@ import (
 )
 
 func init() {
+	env.Register("C12_FullQueue", C12_FullQueue)
 	env.Register("C12_Bytes", C12_Bytes)
 	env.Register("C12_Mutate", C12_Mutate)
 }
@@ -144,4 +147,25 @@ func C12_Bytes() {
 	}
 	env.Assert("C12.worker.no_panic", p2 == 0)
 	env.Reach("C12.bytes.done")
+}
+
+// C12_FullQueue: the worker's message queue (capacity 1000) is full because the worker is busy; one more
+// valid message arrives, followed by an UpdateState and an election trigger. The main loop must take all
+// three events (it never blocks on the worker): afterwards nothing offered to it is still pending.
+func C12_FullQueue() {
+	wd := newWorld(1, equalWeights(4))
+	n := wd.n
+	msg := wd.net.pm(2, 1, 0, primitives.BlockHash{0x21}).ToConsensusRawMessage()
+	for i := 0; i < cap(n.m.worker.MessagesChannel); i++ {
+		n.m.worker.MessagesChannel <- msg
+	}
+	env.ChanOffer(n.m.messagesChannel, msg)
+	// the UpdateState caller shows up once the message has been taken
+	env.ChanOfferAfter(n.m.mainUpdateStateChannel, &blockWithProof{block: &stub.Block{H: 5}}, n.m.messagesChannel)
+	p := env.RunUntilParked(func() { n.m.run(context.Background()) })
+	env.Assert("C12.main.no_panic", p != 1)
+	env.Assert("C12.main.takes_every_event", env.ChanPending(n.m.messagesChannel) == 0)
+	env.Assert("C12.main.takes_every_event", env.ChanPending(n.m.mainUpdateStateChannel) == 0)
+	env.Assert("C12.main.takes_every_event", env.ChanBuffered(n.m.worker.workerUpdateStateChannel) == 1)
+	env.Reach("C12.fullqueue.done")
 }
